@@ -215,31 +215,104 @@ def err_edge_absorbs(body, start, ret_is_result, derived):
     return None
 
 
+ITER_DROPPING = {
+    # Iterator adapters that use `IntoIterator for Result` / Option and thereby drop every Err
+    "std::iter::Iterator::flatten": "Iterator::flatten over Result items drops every Err",
+}
+ITER_CLOSURE_DROPPING = {
+    # adapters whose closure result is flattened: a closure returning Result loses its Err
+    "std::iter::Iterator::flat_map": "Iterator::flat_map with a closure returning Result drops every Err",
+}
+ABSORBING_FN_VALUES = {"ok", "err", "is_ok", "is_err", "unwrap_or_default"}
+
+
 def analyse_body(body):
-    """Return the list of Result-producing call sites with classified consumers."""
+    """Return the list of Result-producing sites with classified consumers."""
     sites = []
     uses = None
     ret_is_result = result_err(body.ret or "") is not None
+    origins = []  # (local, bb, callee-or-origin-name, err, line)
     for bi, t in body.calls():
+        # --- iterator adapters that silently drop Err items
+        o = callee_orig(t)
+        item = t.get("item_ty")
+        if o in ITER_DROPPING and item and interesting_err(result_err(item)):
+            site = Site(body, bi, o, result_err(item), t.get("line"))
+            site.consumers.append(("absorb", ITER_DROPPING[o], bi, None))
+            sites.append(site)
+        if o in ITER_CLOSURE_DROPPING:
+            for defs in t.get("arg_defs", []):
+                for d in defs[:1]:   # the argument's own closure (pre-order walk: outermost first)
+                    cb = body.prog.bodies.get(d)
+                    if cb is not None and interesting_err(result_err(cb.ret or "")):
+                        site = Site(body, bi, o, result_err(cb.ret), t.get("line"))
+                        site.consumers.append(("absorb", ITER_CLOSURE_DROPPING[o], bi, None))
+                        sites.append(site)
+        # --- `Result::ok` & co passed as function values (filter_map(Result::ok), map_while(Result::ok))
+        for a in t["args"]:
+            if a["k"] == "const" and "fn" in a:
+                rm = result_method(a["fn"].get("def")) or result_method(a["fn"].get("orig"))
+                if rm in ABSORBING_FN_VALUES:
+                    gargs = a["fn"].get("gargs", [])
+                    err = gargs[1] if len(gargs) > 1 else "?"
+                    if interesting_err(err):
+                        site = Site(body, bi, callee_name(t) or "?", err, t.get("line"))
+                        site.consumers.append(("absorb", f"Result::{rm} passed as a function value", bi, None))
+                        sites.append(site)
         err = result_err(t.get("dest_ty", ""))
         if not interesting_err(err):
             continue
-        if uses is None:
-            uses = _uses_of(body)
-        site = Site(body, bi, callee_name(t) or ("<indirect:" + t["callee"].get("ty", "?") + ">"), err, t.get("line"))
         dest = t["dest"]
+        name = callee_name(t) or ("<indirect:" + t["callee"].get("ty", "?") + ">")
         if dest[1]:
-            # written into a field / through a pointer: escapes into a structure
+            site = Site(body, bi, name, err, t.get("line"))
             site.consumers.append(("escape", "stored-into-place", bi, None))
             sites.append(site)
             continue
         if dest[0] == 0:
+            site = Site(body, bi, name, err, t.get("line"))
             site.consumers.append(("propagate", "returned", bi, None))
             sites.append(site)
             continue
-        _follow(body, uses, dest[0], site, ret_is_result)
+        origins.append((dest[0], bi, name, err, t.get("line")))
+    # --- Results extracted from a container (Option<Result>, tuples, fields): `_r = move (_x as Some).0`
+    call_dests = {o[0] for o in origins}
+    for bi, si, s in body.stmts():
+        if s["k"] != "assign" or s["p"][1] or s["p"][0] == 0:
+            continue
+        rv = s["rv"]
+        if rv["k"] != "use" or not rv["ops"] or rv["ops"][0]["k"] not in ("copy", "move"):
+            continue
+        src = rv["ops"][0]["p"]
+        if not src[1]:
+            continue
+        l = s["p"][0]
+        err = result_err(body.local_ty(l))
+        if not interesting_err(err) or l in call_dests:
+            continue
+        # skip payload moves out of a Result itself (`(_r as Ok).0` is not a Result unless nested)
+        origins.append((l, bi, "<extracted from " + _proj_descr(src) + ">", err, s.get("line")))
+    # --- closure parameters of Result type (e.g. `.map(|r| ...)`, `.for_each(|r| ...)`)
+    if body.kind == "Closure":
+        for l in range(2, body.argc + 1):
+            err = result_err(body.local_ty(l))
+            if interesting_err(err):
+                origins.append((l, 0, "<closure parameter>", err, body.line))
+    seen_locals = set()
+    for l, bi, name, err, line in origins:
+        if (l, bi) in seen_locals:
+            continue
+        seen_locals.add((l, bi))
+        if uses is None:
+            uses = _uses_of(body)
+        site = Site(body, bi, name, err, line)
+        _follow(body, uses, l, site, ret_is_result)
         sites.append(site)
     return sites
+
+
+def _proj_descr(p):
+    return "".join(x if x.startswith(".") or x.startswith("[") else ("(" + x + ")") for x in p[1] if x != "*") or "place"
 
 
 def _follow(body, uses, start_local, site, ret_is_result):
